@@ -38,14 +38,14 @@ THOROUGH = {
 
 # narrower spaces for the adversarial modes (every position of every batch is perturbed)
 NARROW = {
-    "marlin": dict(SupSet={2, 3}, HidSet={0, 1}, BoundSeqs={(), (3, 2)}, NoBoundsToo=False, ClsSet={"const", "full"}),
-    "sonic": dict(SupSet={2, 3}, HidSet={0, 1}, BoundSeqs={(), (3, 2)}, NoBoundsToo=False, ClsSet={"const", "full"}),
-    "ipa": dict(SupSet={3}, HidSet={0, 1}, ClsSet={"const", "full"}),
-    "pst13": dict(SupSet={2}, HidSet={0, 1}, ClsSet={"const", "full", "mixed"}),
-    "hyrax": dict(ClsSet={"const", "full"}),
-    "ligero_uni": dict(ClsSet={"const", "full"}),
-    "ligero_ml": dict(ClsSet={"const", "full"}),
-    "brakedown": dict(ClsSet={"const", "full"}),
+    "marlin": dict(SupSet={2, 3}, HidSet={0, 1}, BoundSeqs={(), (3, 2)}, NoBoundsToo=False, ClsSet={"zero", "const", "full"}),
+    "sonic": dict(SupSet={2, 3}, HidSet={0, 1}, BoundSeqs={(), (3, 2)}, NoBoundsToo=False, ClsSet={"zero", "const", "full"}),
+    "ipa": dict(SupSet={3}, HidSet={0, 1}, ClsSet={"zero", "const", "full"}),
+    "pst13": dict(SupSet={2}, HidSet={0, 1}, ClsSet={"zero", "const", "full", "mixed"}),
+    "hyrax": dict(ClsSet={"zero", "const", "full"}),
+    "ligero_uni": dict(ClsSet={"zero", "const", "full"}),
+    "ligero_ml": dict(ClsSet={"zero", "const", "full"}),
+    "brakedown": dict(ClsSet={"zero", "const", "full"}),
 }
 
 INV_ALL = ["TypeOK", "C01_HonestAccepted", "C11_LockStep", "NoFalseAccept", "WantHolds",
